@@ -28,6 +28,12 @@ Qed.
 Lemma cg_In_rev_range j n : In j (rev (range n)) -> (j < n)%nat.
 Proof. intros H. apply in_rev in H. apply cg_In_range_from in H. lia. Qed.
 
+Lemma cg_rev_range_pos k : (1 <= k)%nat -> exists bi idxs, rev (range k) = bi :: idxs.
+Proof. destruct k as [|n]; intros H; [lia|]. rewrite cg_rev_range_S. eauto. Qed.
+
+Lemma cg_rev_nil {T} (l : list T) : rev l = [] -> l = [].
+Proof. intros H. apply (f_equal (@rev T)) in H. rewrite rev_involutive in H. exact H. Qed.
+
 (** ---- the order on incumbent values: None = +inf ---- *)
 
 (** [better_or_equal r2 r1]: r2 is at least as good as r1 *)
@@ -845,4 +851,104 @@ Section CGProofs.
     exists (cg_ticks (cg_run valueof keep o flags None k items)). intros n Hn.
     rewrite !cg_run_eq. apply cg_explore_big. rewrite <- cg_run_eq. exact Hn.
   Qed.
+
+  (** ================= 4. a run without limit always returns a result (C01) ================= *)
+  Section Total.
+    Variables (keep : bool) (o : objective) (flags : cg_flags) (k : nat) (glb : option Z).
+    Hypothesis Hk : (1 <= k)%nat.
+    Notation explore := (cg_explore valueof keep o flags None k glb).
+    Notation children := (cg_children valueof keep o flags k).
+
+    (** every recorded state has depth at most d *)
+    Definition cg_seen_le (d : nat) (seen : list (nat * list Z)) : Prop :=
+      Forall (fun e => (fst e <= d)%nat) seen.
+
+    Lemma cg_seen_skip_fresh depth ns seen :
+      cg_seen_le depth seen -> cg_seen_skip flags depth ns seen = false.
+    Proof.
+      intros H. unfold cg_seen_skip. destruct (use_set_of_seen_states flags); [|reflexivity].
+      cbn [andb]. induction H as [|e seen He Hs IH]; cbn [existsb]; [reflexivity|].
+      rewrite IH, orb_false_r. unfold state_eqb. cbn [fst].
+      destruct (Nat.eqb (S depth) (fst e)) eqn:E; [apply Nat.eqb_eq in E; lia|reflexivity].
+    Qed.
+
+    Lemma cg_children_seen_le idxs b cur x R depth : forall prev bestv seen,
+      cg_seen_le (S depth) seen ->
+      cg_seen_le (S depth) (snd (children idxs b cur x R depth prev bestv seen)).
+    Proof.
+      induction idxs as [|bi idxs IH]; intros prev bestv seen H; [exact H|].
+      rewrite cg_children_cons. cbv zeta.
+      destruct (cg_prev_skip _ _); [apply IH; exact H|].
+      destruct (cg_pruned _ _ _ _ _ _ _ _ _ _); [apply IH; exact H|].
+      destruct (cg_seen_skip _ _ _ _); [apply IH; exact H|].
+      cbn [snd]. apply IH. unfold cg_seen_add.
+      destruct (use_set_of_seen_states flags); [|exact H]. constructor; [cbn [fst]; lia|exact H].
+    Qed.
+
+    Lemma cg_seen_le_S d seen : cg_seen_le d seen -> cg_seen_le (S d) seen.
+    Proof. intros H. eapply Forall_impl; [|exact H]. cbv beta. intros e He. lia. Qed.
+
+    (** while there is no incumbent and no state of the next depth was recorded, the first
+        bin index tried is not pruned *)
+    Lemma cg_children_nonempty bi idxs b cur x R depth seen : cg_seen_le depth seen ->
+      fst (children (bi :: idxs) b cur x R depth None None seen) <> [].
+    Proof.
+      intros H. rewrite cg_children_cons. cbv zeta. cbn [cg_prev_skip].
+      rewrite cg_pruned_none, cg_seen_skip_fresh by exact H. cbn [fst]. discriminate.
+    Qed.
+
+    Lemma cg_enter_nolimit (st : @cg_state A) : cg_stop st = false ->
+      cg_enter None st =
+      Some (mk_cg (cg_best st) (cg_bestv st) (cg_seen st) false (S (cg_ticks st)) (cg_first st)).
+    Proof. unfold cg_enter. intros ->. reflexivity. Qed.
+
+    Lemma cg_total_leaf (b : bins A) st : cg_stop st = false -> cg_bestv st = None ->
+      cg_best (cg_leaf o None glb b st) <> None.
+    Proof.
+      intros Hs Hb. rewrite cg_leaf_eq, cg_enter_nolimit by exact Hs.
+      cbn [cg_bestv]. rewrite Hb. cbn [lt_bestv cg_best]. discriminate.
+    Qed.
+
+    Lemma cg_total_explore : forall rest depth b st,
+      cg_stop st = false -> cg_bestv st = None -> cg_seen_le depth (cg_seen st) ->
+      cg_best (explore rest depth b st) <> None.
+    Proof.
+      induction rest as [|x t IH]; intros depth b st Hs Hb Hseen.
+      - rewrite cg_explore_nil. apply cg_total_leaf; assumption.
+      - rewrite cg_explore_cons, cg_enter_nolimit by exact Hs.
+        destruct (cg_h3_cond _ _ _ _); [apply cg_total_leaf; [reflexivity|exact Hb]|].
+        cbv zeta. cbn [cg_best cg_bestv cg_seen cg_ticks cg_first]. rewrite Hb.
+        destruct (cg_rev_range_pos k Hk) as (bi & idxs & Er). rewrite Er.
+        pose proof (cg_children_nonempty bi idxs b (sums b) x (zsum (map valueof t)) depth
+                      (cg_seen st) Hseen) as Hne.
+        pose proof (cg_children_seen_le (bi :: idxs) b (sums b) x (zsum (map valueof t)) depth
+                      None None (cg_seen st) (cg_seen_le_S _ _ Hseen)) as Hle.
+        destruct (rev (fst _)) as [|c cs] eqn:Ec.
+        + apply cg_rev_nil in Ec. contradiction.
+        + cbn [fold_left]. apply cg_best_keep_fold. apply IH; [reflexivity|reflexivity|exact Hle].
+    Qed.
+  End Total.
+
+  Theorem cg_total_keep : forall keep o flags k items, (1 <= k)%nat ->
+    exists b, cg valueof keep o flags None k items = Some b.
+  Proof.
+    intros keep o flags k items Hk. unfold cg. rewrite cg_run_eq.
+    destruct (cg_best _) as [b|] eqn:E; [exists b; reflexivity|]. exfalso. revert E.
+    apply cg_total_explore; [exact Hk|reflexivity|reflexivity|].
+    unfold cg_init_state, cg_seen_le. cbn [cg_seen].
+    destruct (use_set_of_seen_states flags); repeat constructor.
+  Qed.
+
+  Theorem cg_total : forall o flags k items, (1 <= k)%nat ->
+    exists b, cg valueof true o flags None k items = Some b.
+  Proof. intros o flags k items. apply cg_total_keep. Qed.
 End CGProofs.
+
+(** non-vacuity / regression: these inputs returned no result before the repairs *)
+Example cg_total_ex1 :
+  exists b, cg (fun v => v) true MinDiff (mk_flags true true false true) None 5 [0; 3] = Some b.
+Proof. eexists. vm_compute. reflexivity. Qed.
+
+Example cg_total_ex2 :
+  exists b, cg (fun v => v) true MaxSmallest (mk_flags true true false true) None 1 [1; 2] = Some b.
+Proof. eexists. vm_compute. reflexivity. Qed.
